@@ -29,3 +29,30 @@ Print Assumptions C01_precompile_sets.
 Theorem C01_source_reviewed : group_ok 1 = true.
 Proof. exact gen_group_1. Qed.
 Print Assumptions C01_source_reviewed.
+
+From Verif Require Import Base.Bytes Model.Exec Proofs.Exec_generic Proofs.Exec_refine.
+(** PART 2 — the frame logic Artela changed (EVM.Call / create / the other entry points), as modelled in Model/Exec.v.
+    With NOTHING BOUND to any join point, running any standard program (its instructions emit no join-point events and
+    none is a journal instruction; standard precompiles ignore the execution context) through the frame logic WITH the
+    Artela additions switched on — call tree, balance journal, join points (on or off), context-carrying precompile
+    calls — gives, for every entry point (interpreter loop, frame start, CALL, CALLCODE, DELEGATECALL, STATICCALL,
+    CREATE/CREATE2), every call tree, gas amount and depth, exactly the result (return data, leftover gas, error), the
+    world state and the debug-tracer event list that the frame logic WITHOUT the additions gives; the only differences
+    are the Artela tracer's own state (erased by [erase]) and the provider queries (filtered from the event list).
+    [PR] (Proofs/Exec_refine.v) is the conjunction of these seven statements. *)
+Theorem C01_artela_additions_invisible : forall W M HT can_transfer transfer balance_of exists_acct create_account code_of collides get_nonce set_nonce acl_add set_code touch is_homestead is_eip158 is_berlin is_london max_code_size is_precompile precompile local_step init_machine keccak debug jpA alA aspA jpR alR bR aspR t0,
+  (forall d fc m w, Forall (fun e => is_jp_event e = false) (step_events (local_step d fc m w))) ->
+  (forall d fc m w, match local_step d fc m w with SJournal _ _ _ _ _ _ => False | _ => True end) ->
+  (forall a c i g, precompile a (Some c) i g = precompile a None i g) ->
+  forall fuel, PR W M HT can_transfer transfer balance_of exists_acct create_account code_of collides get_nonce set_nonce acl_add set_code touch is_homestead is_eip158 is_berlin is_london max_code_size is_precompile precompile local_step init_machine keccak debug jpA alA aspA jpR alR bR aspR t0 fuel.
+Proof. exact additions_invisible. Qed.
+Print Assumptions C01_artela_additions_invisible.
+
+(** non-vacuity: the side conditions are satisfiable (an instruction semantics that just stops, precompiles that ignore
+    the context), and the script instance run against the code emits no join-point events of its own *)
+Example C01_side_conditions_inhabited :
+  (forall (d : nat) (fc : fctx) (m : unit) (w : nat), Forall (fun e => is_jp_event e = false)
+      (step_events ((fun _ _ _ w => SDone nat unit unit [] 0%N None w []) d fc m w))) /\
+  (forall (a c : N) (i : bytes) (g : N), (fun (_ : N) (_ : option N) (_ : bytes) g => mk [] g None) a (Some c) i g =
+                                          (fun (_ : N) (_ : option N) (_ : bytes) g => mk [] g None) a None i g).
+Proof. split; intros; [constructor|reflexivity]. Qed.
